@@ -28,6 +28,28 @@ logger = logging.getLogger()
 
 mpctx = multiprocessing.get_context()
 
+# Verification hook (inactive unless CUTADAPT_VERIF=1 and CUTADAPT_VERIF_TRACE=<path>):
+# every process appends one line per protocol event to the trace file.
+_VERIF_TRACE = (
+    os.environ.get("CUTADAPT_VERIF_TRACE") if os.environ.get("CUTADAPT_VERIF") else None
+)
+
+
+def _verif_trace(*fields) -> None:
+    if _VERIF_TRACE:
+        fd = os.open(_VERIF_TRACE, os.O_WRONLY | os.O_APPEND | os.O_CREAT, 0o644)
+        try:
+            os.write(fd, (" ".join(str(f) for f in fields) + "\n").encode())
+        finally:
+            os.close(fd)
+        sched = os.environ.get("CUTADAPT_VERIF_SCHED")
+        if sched:
+            import random
+            import time
+
+            time.sleep(random.Random(hash((sched, os.getpid(), fields))).random() * 0.003)
+
+
 # See https://github.com/python/typeshed/issues/9860
 if TYPE_CHECKING:
     mpctx_Process = multiprocessing.Process  # pragma: no cover
@@ -109,6 +131,7 @@ class ReaderProcess(mpctx_Process):
             # This code is rarely executed because there is little that can go wrong
             # splitting up the input into chunks. FASTQ/FASTA parsing problems
             # are caught within the workers.
+            _verif_trace("rfail")
             for connection in self.connections:
                 connection.send(-2)
                 connection.send((e, traceback.format_exc()))
@@ -128,6 +151,7 @@ class ReaderProcess(mpctx_Process):
     def send_to_worker(self, chunk_index, chunk1, chunk2=None):
         worker_index = self.queue.get()
         connection = self.connections[worker_index]
+        _verif_trace("send", worker_index, chunk_index)
         connection.send(chunk_index)
         connection.send_bytes(chunk1)
         if chunk2 is not None:
@@ -137,6 +161,7 @@ class ReaderProcess(mpctx_Process):
         # Send poison pills to all workers
         for _ in range(len(self.connections)):
             worker_index = self.queue.get()
+            _verif_trace("pill", worker_index)
             self.connections[worker_index].send(-1)
 
 
@@ -176,6 +201,7 @@ class WorkerProcess(mpctx_Process):
             stats = Statistics()
             while True:
                 # Notify reader that we need data
+                _verif_trace("req", self._id)
                 self._need_work_queue.put(self._id)
                 chunk_index = self._read_pipe.recv()
                 if chunk_index == -1:
@@ -185,12 +211,14 @@ class WorkerProcess(mpctx_Process):
                     # An exception has occurred in the reader
                     e, tb_str = self._read_pipe.recv()
                     logger.error("%s", tb_str)
+                    _verif_trace("werr", self._id)
                     raise e
 
                 files = [
                     io.BytesIO(self._read_pipe.recv_bytes())
                     for _ in range(self._n_input_files)
                 ]
+                _verif_current_chunk = chunk_index
                 infiles = InputFiles(
                     *files,
                     interleaved=self._interleaved_input,
@@ -198,6 +226,8 @@ class WorkerProcess(mpctx_Process):
                 )
                 (n, bp1, bp2) = self._pipeline.process_reads(infiles)
                 stats += Statistics().collect(n, bp1, bp2, [], [])
+                _verif_trace("take", self._id, chunk_index)
+                _verif_current_chunk = None
                 self._send_outfiles(chunk_index, n)
 
             stats += Statistics().collect(
@@ -207,9 +237,12 @@ class WorkerProcess(mpctx_Process):
                 self._pipeline._modifiers,
                 self._pipeline._steps,
             )
+            _verif_trace("fin", self._id)
             self._write_pipe.send(-1)
             self._write_pipe.send(stats)
         except Exception as e:
+            if _VERIF_TRACE and locals().get("_verif_current_chunk") is not None:
+                _verif_trace("takebad", self._id, locals()["_verif_current_chunk"])
             self._write_pipe.send(-2)
             self._write_pipe.send((e, traceback.format_exc()))
 
@@ -363,6 +396,7 @@ class ParallelPipelineRunner(PipelineRunner):
         for f in outfiles.binary_files():
             chunk_writers.append(OrderedChunkWriter(f))
         stats = Statistics()
+        _verif_ids = {id(c): i for i, c in enumerate(connections)} if _VERIF_TRACE else {}
         while connections:
             ready_connections: List[Any] = multiprocessing.connection.wait(connections)
             for connection in ready_connections:
@@ -371,6 +405,7 @@ class ParallelPipelineRunner(PipelineRunner):
                     # the worker is done
                     cur_stats = self._try_receive(connection)
                     stats += cur_stats
+                    _verif_trace("recvfin", _verif_ids.get(id(connection)))
                     connections.remove(connection)
                     continue
 
@@ -379,6 +414,7 @@ class ParallelPipelineRunner(PipelineRunner):
                 for writer in chunk_writers:
                     data = connection.recv_bytes()
                     writer.write(data, chunk_index)
+                _verif_trace("recv", _verif_ids.get(id(connection)), chunk_index)
         for writer in chunk_writers:
             assert writer.wrote_everything()
         for w in workers:
@@ -395,6 +431,7 @@ class ParallelPipelineRunner(PipelineRunner):
         """
         result = connection.recv()
         if result == -2:
+            _verif_trace("recverr")
             # An exception has occurred on the other end
             e, tb_str = connection.recv()
             # The other end does not send an actual traceback object because these are
